@@ -26,12 +26,12 @@ from . import common, fxgen
 from .common import Report
 
 
-def my_act(x):  # a user function the `replace` map sends to U.gelu
-    return torch.tanh(x) * 0.5
+def my_act(input):  # a user function the `replace` map sends to U.gelu
+    return torch.tanh(input) * 0.5
 
 
-def my_silu(x):  # user override of a built-in mapping
-    return x * torch.sigmoid(x) * 1.0
+def my_silu(input):  # user override of a built-in mapping
+    return input * torch.sigmoid(input) * 1.0
 
 
 NAME_OVERRIDE = {my_act: "my.op", my_silu: "my.silu"}
@@ -75,6 +75,21 @@ class Gen:
             kinds += ["my_act", "my_act"]
         k = r.choice(kinds)
         self.budget -= 1
+        if r.random() < 0.2:      # TENSOR operands passed by keyword (TorchDynamo keeps the user's call style in the graph)
+            if k == "gelu":
+                return g.call_function(F.gelu, (), {"input": h})
+            if k == "silu":
+                return g.call_function(F.silu, (), {"input": h})
+            if k == "softmax":
+                return g.call_function(F.softmax, (), {"input": h, "dim": -1})
+            if k in ("linear", "linear_kwbias"):
+                return g.call_function(F.linear, (), {"input": h, "weight": self.param(8, 8), "bias": self.param(8)})
+            if k == "sdpa":
+                return g.call_function(F.scaled_dot_product_attention, (), {"query": h, "key": h, "value": h})
+            if k == "layer_norm":
+                return g.call_function(F.layer_norm, (), {"input": h, "normalized_shape": (8,)})
+            if k == "tanh":
+                return g.call_function(torch.tanh, (), {"input": h})
         if k == "gelu":
             return g.call_function(F.gelu, (h,))
         if k == "silu":
